@@ -304,6 +304,7 @@ func init() {
 		{"key-access", 8, (*World).opKeyAccess},
 		{"caller-mutation", 8, (*World).opMutate},
 		{"h2c", 2, (*World).opH2C},
+		{"point-coincident", 2, (*World).opCoincident},
 	}
 }
 
@@ -317,7 +318,7 @@ func (w *World) opWeights() []int {
 			switch k.name {
 			case "point-grouplaw":
 				b *= 3
-			case "point-observe", "point-rescale":
+			case "point-observe", "point-rescale", "point-coincident":
 				b *= 2
 			case "key-construct", "key-access", "caller-mutation":
 				b /= 4
